@@ -34,7 +34,7 @@ BOUNDS = {
     "thorough": "quick + history with every None pattern of the replaced proposal, 3 live proposals (budgeted, not exhaustive)",
 }
 OUTSIDE = "more than 3 live proposals; IEEE rounding; overlapping component buckets (NotImplementedError by design)"
-BUDGET = {"quick": 420, "thorough": 3000}
+BUDGET = {"quick": 600, "thorough": 1800}
 
 
 def sysbounds(ex):
